@@ -6,6 +6,31 @@ impl = subprocess.run([os.path.join(here, "bin/prunnerlint"), "-list"], capture_
 
 ENV = "GOFLAGS=-mod=mod GOPROXY=off GOSUMDB=off GOTOOLCHAIN=local GOWORK=off"
 P = json.load(open(os.path.join(here, "tools/manifest_props.json")))
+D = json.loads(subprocess.run([os.path.join(here, "bin/prunnerlint"), "-describe"], capture_output=True, text=True).stdout)
+TECH = {
+ "C01": "order-type decision table + value-set/CFG dominance rules + WaitGroup pairing + lost-update rule on go/ssa",
+ "C02": "CFG launch-gate rule, dependency-verdict table, record-correspondence of stage wiring, on go/ssa + AST",
+ "C03": "CFG must-pass-through (re-trigger) rules, expiry-handler path table, composition of decision tables",
+ "C04": "path/effect table of the cancel function, CFG dominance, discharger rule on the scheduler's cancel exit",
+ "C05": "order-type decision table of the admission function; per-path effect classification of the accept function",
+ "C06": "SSA-form classification of wait-list mutations; lost-update (stale write-back) rule",
+ "C07": "decision-table row + argument-flow of the timer + CFG edge-dominance (timer gate) + who-may-write",
+ "C08": "dependency-verdict and stage-result path tables; fail-fast effect table; field wiring",
+ "C11": "CFG region/ordering rules, WaitGroup pairing, persist-coverage typestate, signal argument flow",
+ "C12": "order-type decision table of the retention decision; CFG must-pass (removal effects); comparator orientation",
+ "C15": "sibling-agreement over enumerated paths; comparator orientation; map-order-leak rule on the AST",
+ "C16": "who-reads / who-writes rules over the resolved program; record correspondence of the job snapshot",
+ "C18": "argument-flow (merge order) rules, per-job allocation rule, reserved-name dominance rule",
+ "C19": "labelled value flow of the stream writers to sink positions; key-function agreement; dominance of the membership test",
+ "C20": "field/argument-flow rules on the exec handler (Setpgid, negative pid, SIGKILL escalation), CFG must-pass, who-may-spawn",
+}
+for pid, d in D.items():
+    e = P.setdefault(pid, {})
+    e.setdefault("level", d["level"])
+    e.setdefault("text", d["explanation"])
+    e.setdefault("design_ref", "DESIGN.md section 5 " + pid)
+    e.setdefault("note", "Trusted: " + "; ".join(d.get("trusted") or ["—"]) + ". Not decided: " + "; ".join(d.get("not_decided") or ["—"]) + ".")
+    e.setdefault("technique", TECH.get(pid, "repository-specific static rules on go/ssa"))
 
 checks, na = [], []
 for pid in sorted(P):
